@@ -2,15 +2,16 @@
 import itertools
 
 from .. import drv_nn as D
+from ..core import pmap
 
 
 def run(ctx):
     q, rng = ctx.quick, ctx.rng
     ctx.model("MC_NNSP", "MC_NNSP%s.cfg" % ("" if q else "_deep"), require_actions=("Choose",))
     # every pair of samples of sizes (1..a) x (1..b) on a small lattice, k = 1..3, on the real partitioner
-    g, na, nbb = (2, 2, 2) if q else (3, 2, 3)
+    g, na, nbb = (2, 2, 2) if q else (3, 2, 2)
     pts = [[x, y] for x in range(g) for y in range(g)]
-    traces = []
+    work = []
     for la in range(1, na + 1):
         for lb in range(1, nbb + 1):
             for s1 in itertools.product(pts, repeat=la):
@@ -18,7 +19,8 @@ def run(ctx):
                     nd = len({tuple(p) for p in s1 + s2})
                     for k in (1, 2, 3):
                         if k <= nd:
-                            traces.append(D.build_trace([list(p) for p in s1], [list(p) for p in s2], k))
+                            work.append(([list(p) for p in s1], [list(p) for p in s2], k))
+    traces = pmap(D.build_trace, work, procs=4)
     ctx.validate("NNSP", traces, "every pair of samples (sizes 1..%d x 1..%d) on a %dx%d lattice, k = 1..3" % (na, nbb, g, g),
                  sabotage=D.sabotage, replay=lambda i: {"mode": "build", "s1": traces[i]["s1"], "s2": traces[i]["s2"], "k": traces[i]["k"]},
                  nontrivial=lambda t: len(t["s1"]) != len(t["s2"]))
